@@ -59,7 +59,7 @@ def random_hierarchy(rng, depth, with_seq=True, allow_overlap=False):
     """levels nearest-first; returns (levels tokens list, length of level 0, level infos)"""
     top_len = rng.randint(12, 40)
     top_seq = "".join(rng.choice("ACGT") for _ in range(top_len))
-    infos = [("L%d" % depth, "chromosome" if rng.random() < 0.7 else "T%d" % depth, top_seq, None)]
+    infos = [("L%d" % depth, rng.choice(["chromosome", "chromosome", "sequence_chunk", "T"]), top_seq, None)]
     cur_len, cur_seq = top_len, top_seq
     for d in range(depth - 1, -1, -1):
         k = rng.choice([1, 1, 2, 3])
@@ -70,7 +70,9 @@ def random_hierarchy(rng, depth, with_seq=True, allow_overlap=False):
         st = rng.choice("+-")
         kind = "S" if len(blocks) == 1 and rng.random() < 0.7 else "C"
         seq = extract(cur_seq, blocks, st)
-        ltype = "sequence_chunk" if (d == 0 and rng.random() < 0.3) else "T%d" % d
+        # types repeat on purpose (a chunk cut out of a chunk): "first ancestor of type" and "ancestor holding
+        # this sequence" then differ
+        ltype = rng.choice(["sequence_chunk", "sequence_chunk", "T", "T%d" % d])
         # placement of level d on the level above is stored WITH the upper level
         infos[-1] = infos[-1][:3] + ((kind, st, blocks),)
         infos.append(("L%d" % d, ltype, seq, None))
@@ -161,4 +163,14 @@ def cases(run):
         rel = [(min(s, b1 - a1), min(e, b1 - a1)) for s, e in rel]
         a2 = rng.randint(0, 40)
         b2 = a2 + rng.randint(1, 50)
-        yield f"rechunk {enc_loc('C', rng.choice('+-'), rel)} {a1} {b1} {rng.choice('+-')} {a2} {b2} {rng.choice('+-')}"
+        s1 = rng.choice('+-')
+        s2 = rng.choice('+-')
+        mode = rng.random()
+        if mode < 0.25:            # the same window on the other strand (chunk ids do not spell out the strand)
+            a2, b2, s2 = a1, b1, ('-' if s1 == '+' else '+')
+            run.count("rechunk:same-window-other-strand")
+        elif mode < 0.35:          # the identical chunk
+            a2, b2, s2 = a1, b1, s1
+        elif mode < 0.5:           # windows sharing one end
+            a2 = a1
+        yield f"rechunk {enc_loc('C', rng.choice('+-'), rel)} {a1} {b1} {s1} {a2} {b2} {s2}"
